@@ -910,6 +910,7 @@ func TestC03(t *testing.T) {
 		ins = append(ins, in)
 	}
 	rng := NewRand(Seed())
+	col.Count(fmt.Sprintf("mock-chaintime-validated:%d", validateMockChainTime(t, NewRand(Seed()+77))))
 	for i := 0; i < n; i++ {
 		ins = append(ins, gen(rng.Fork(), i))
 	}
